@@ -38,6 +38,7 @@ impl<K: KeyV> HashSet<K> {
         ensures
             forall|i: int| 0 <= i < r@.len() ==> self@.contains(#[trigger] r@[i].kv()),
             forall|k: K::KV| self@.contains(k) ==> exists|i: int| 0 <= i < r@.len() && #[trigger] r@[i].kv() == k,
+            forall|i: int, j: int| 0 <= i < j < r@.len() ==> (#[trigger] r@[i]).kv() != (#[trigger] r@[j]).kv(),
     { unimplemented!() }
 }
 // R12 target for `map.entry(k).or_default().push(v)` on a map from strings to lists of strings
